@@ -310,8 +310,62 @@ func runVarCase(c *Ctx, ops []string) {
 	c.model(op, impl, "model")
 }
 
+// variants handed out by the library (constructors, clones, results of conversions and operators) are the caller's own:
+// writing into one of them changes no other variant obtained the same way, before or after
+func propOwnVariants(c *Ctx) {
+	u := mgrOf("u")
+	makers := []struct {
+		name string
+		mk   func() *variants.Variant
+	}{
+		{"EmptyVariant()", variants.EmptyVariant},
+		{"NewVariant(nil)", func() *variants.Variant { return variants.NewVariant(nil) }},
+		{"VariantFromArray(nil)", func() *variants.Variant { return variants.VariantFromArray(nil) }},
+		{"VariantFromArray([])", func() *variants.Variant { return variants.VariantFromArray([]*variants.Variant{}) }},
+		{"Convert(null, Array)", func() *variants.Variant { r, _ := u.Convert(variants.EmptyVariant(), variants.Array); return r }},
+		{"Convert(null, String)", func() *variants.Variant { r, _ := u.Convert(variants.EmptyVariant(), variants.String); return r }},
+		{"Convert(null, Integer)", func() *variants.Variant { r, _ := u.Convert(variants.EmptyVariant(), variants.Integer); return r }},
+		{"Convert(null, Null)", func() *variants.Variant { r, _ := u.Convert(variants.EmptyVariant(), variants.Null); return r }},
+		{"Convert([], Array)", func() *variants.Variant { r, _ := u.Convert(vArr(), variants.Array); return r.Clone() }},
+		{"Convert(1, Array)", func() *variants.Variant { r, _ := u.Convert(vInt(1), variants.Array); return r }},
+		{"Clone of an empty array", func() *variants.Variant { return vArr().Clone() }},
+		{"Add(null, 1)", func() *variants.Variant { r, _ := u.Add(variants.EmptyVariant(), vInt(1)); return r }},
+		{"Add([], [])", func() *variants.Variant { r, _ := u.Add(vArr(), vArr()); return r }},
+	}
+	for _, m := range makers {
+		op := "own " + strRunes(m.name)
+		c.record(op, true)
+		c.count("own-variant-maker")
+		note := ""
+		st := safeCall(func() string {
+			a := m.mk()
+			if a == nil {
+				return ""
+			}
+			before := encVariant(a)
+			b := m.mk()
+			// write into a: as an array (grow, set an element) and as a scalar
+			if a.Type() == variants.Array {
+				a.SetByIndex(1, vInt(7))
+			} else {
+				a.SetAsString("\u00a7written")
+			}
+			if got := encVariant(b); got != before {
+				note = fmt.Sprintf("two variants obtained by %s: writing into the first changed the second from %s to %s", m.name, before, got)
+			} else if got := encVariant(m.mk()); got != before {
+				note = fmt.Sprintf("%s gave %s at first and %s after the caller wrote into the first result", m.name, before, got)
+			}
+			return ""
+		})
+		if st != "" || note != "" {
+			c.fail(Failure{Kind: "oracle", Op: op, Impl: st, Note: note})
+		}
+	}
+}
+
 func propC20(c *Ctx) {
 	propScaleVariants(c)
+	propOwnVariants(c)
 	scalars := []string{"n", "i0", "i-5", "i9223372036854775807", "l7", "l-9223372036854775808", "f3fc00000", "fNaN", "f80000000", "f00000000",
 		"d3ff8000000000000", "dNaN", "d0000000000000000", "s", "s97.98", "s233", "b1", "b0", "t0.0", "t1600000000.500", "p1500000000", "p0"}
 	arrays := []string{"a[]", "a[i1/i2]", "a[a[i1/i2]/a[s97]]", "a[s97/n/b1]", "a[a[i1]/i2]", "a[d3ff8000000000000]", "a[f80000000/d0000000000000000]"}
@@ -424,6 +478,10 @@ func propC20(c *Ctx) {
 }
 
 func replayC20(c *Ctx, op string) {
+	if strings.HasPrefix(op, "own ") {
+		propOwnVariants(c)
+		return
+	}
 	f := strings.Fields(op)
 	if f[0] == "var" {
 		runVarCase(c, f[1:])
